@@ -181,10 +181,12 @@ class TestTask(BaseTask):
         # Run test:
         ###
         if context.session.is_successful(ReportLocation.in_test(self.test)):
-            test_args = self._prepare_test_args(self.test, scheduled_fixtures)
-            context.session.set_step(self.test.description)
             try:
-                self.test.callback(**test_args)
+                # NB: a per-thread fixture is evaluated at its first use by the thread, which can be here
+                test_args = self._prepare_test_args(self.test, scheduled_fixtures)
+                if context.session.is_successful(ReportLocation.in_test(self.test)):
+                    context.session.set_step(self.test.description)
+                    self.test.callback(**test_args)
             except Exception as e:
                 context.handle_exception(e, suite)
 
